@@ -192,7 +192,7 @@ func printCurrentOptions(p *profile.Profile, ui plugin.UI) {
 			comment = "[" + strings.Join(values, " | ") + "]"
 		case n == "sample_index":
 			st := sampleTypes(p)
-			if v == "" {
+			if v == "" && len(st) > 0 {
 				// Apply default (last sample index).
 				v = st[len(st)-1]
 			}
